@@ -82,9 +82,13 @@ class SE:
         if is_false(cond):
             return k_false(st)
         sT = st.fork(); sT.pc.append(cond)
-        if self.sat(sT): k_true(sT)
         sF = st.fork(); sF.pc.append(Not(cond))
-        if self.sat(sF): k_false(sF)
+        if self.sat(sT):
+            k_true(sT)
+            if self.sat(sF): k_false(sF)
+        else:
+            # pc & cond is unsatisfiable, so pc & not cond is as satisfiable as pc: no second query needed
+            k_false(sF)
 
     def oblige(self, st, name, goal):
         self.obligations.append((name, list(st.pc), goal, st.shaky))
